@@ -492,6 +492,186 @@ theorem pad_crop_nd {α : Type} [Inhabited α] (z : α) (a : Arr α) (w : List (
   rw [build_congr _ _ _ key]
   exact build_get_self a ha
 
+/-! ### what `plan` makes of the crop that undoes a pad -/
+
+theorem mapMExcept_ok {β γ : Type} (f : β → Except Err γ) (g : β → γ) :
+    ∀ l : List β, (∀ x ∈ l, f x = .ok (g x)) → mapMExcept f l = .ok (l.map g)
+  | [], _ => rfl
+  | x :: t, h => by
+    simp only [mapMExcept, h x (by simp), mapMExcept_ok f g t (fun y hy => h y (by simp [hy]))]
+    rfl
+
+theorem dictSet_fresh {β : Type} : ∀ (d : List (Int × β)) (k : Int) (v : β),
+    (∀ p ∈ d, p.1 ≠ k) → dictSet d k v = d ++ [(k, v)]
+  | [], _, _, _ => rfl
+  | (k', v') :: r, k, v, h => by
+    have h1 : k' ≠ k := h (k', v') (by simp)
+    simp only [dictSet, if_neg h1, List.cons_append]
+    rw [dictSet_fresh r k v (fun p hp => h p (by simp [hp]))]
+
+theorem dictZip_fold {β : Type} : ∀ (keys : List Int) (vals : List β) (acc : List (Int × β)),
+    keys.Nodup → (∀ k ∈ keys, ∀ p ∈ acc, p.1 ≠ k) →
+    (keys.zip vals).foldl (fun d (p : Int × β) => dictSet d p.1 p.2) acc = acc ++ keys.zip vals
+  | [], _, acc, _, _ => by simp
+  | _ :: _, [], acc, _, _ => by simp
+  | k :: ks, v :: vs, acc, hn, hacc => by
+    simp only [List.zip_cons_cons, List.foldl_cons]
+    rw [dictSet_fresh acc k v (fun p hp => hacc k (by simp) p hp)]
+    have hn' := List.nodup_cons.mp hn
+    rw [dictZip_fold ks vs (acc ++ [(k, v)]) hn'.2 ?_]
+    · simp
+    · intro k2 hk2 p hp
+      simp only [List.mem_append, List.mem_singleton] at hp
+      rcases hp with hp | hp
+      · exact hacc k2 (by simp [hk2]) p hp
+      · subst hp
+        simp only
+        intro heq; subst heq
+        exact hn'.1 hk2
+
+theorem dictZip_eq_zip {β : Type} (keys : List Int) (vals : List β) (hn : keys.Nodup) :
+    dictZip keys vals = keys.zip vals := by
+  unfold dictZip
+  rw [dictZip_fold keys vals [] hn (by simp)]
+  simp
+
+theorem dictGet_zip {β : Type} : ∀ (keys : List Int) (vals : List β) (i : Nat), keys.Nodup →
+    (hk : i < keys.length) → (hv : i < vals.length) → dictGet (keys.zip vals) keys[i] = some vals[i]
+  | k :: ks, v :: vs, 0, _, _, _ => by simp [dictGet]
+  | k :: ks, v :: vs, i + 1, hn, hk, hv => by
+    have hn' := List.nodup_cons.mp hn
+    simp only [List.zip_cons_cons, dictGet, List.getElem_cons_succ]
+    have hne : k ≠ ks[i]'(by simpa using hk) := by
+      intro heq
+      exact hn'.1 (heq ▸ List.getElem_mem _)
+    rw [if_neg hne]
+    exact dictGet_zip ks vs i hn'.2 _ _
+  | [], _, _, _, hk, _ => by simp at hk
+  | _ :: _, [], _, _, _, hv => by simp at hv
+
+/-- the slice `Dataset.crop` builds for crop width `(before, -after)` -/
+def cropSlice (p : Nat × Nat) : Item :=
+  Item.slice (some (p.1 : Int)) (if (-(p.2 : Int)) ≠ 0 then some (-(p.2 : Int)) else none) none
+
+/-- `crop_widths = ((before, -after), …)` for pad widths `w`, on all axes -/
+def cropIxOfPad (w : List (Nat × Nat)) : List Item :=
+  cropItems w.length (dictZip ((List.range w.length).map Int.ofNat)
+    (w.map fun p => ((p.1 : Int), -(p.2 : Int))))
+
+theorem cropIxOfPad_eq (w : List (Nat × Nat)) : cropIxOfPad w = w.map cropSlice := by
+  unfold cropIxOfPad cropItems
+  have hn : ((List.range w.length).map Int.ofNat).Nodup :=
+    List.Nodup.map (fun a b h => by simpa using h) List.nodup_range
+  rw [dictZip_eq_zip _ _ hn]
+  apply List.ext_getElem
+  · simp
+  · intro i h1 h2
+    have hi : i < w.length := by simpa using h2
+    simp only [List.getElem_map, List.getElem_range]
+    have := dictGet_zip ((List.range w.length).map Int.ofNat)
+      (w.map fun p => ((p.1 : Int), -(p.2 : Int))) i hn (by simpa using hi) (by simpa using hi)
+    simp only [List.getElem_map, List.getElem_range] at this
+    rw [this]
+    rfl
+
+theorem selOf_cropSlice (b n e : Nat) : selOf (b + n + e) (cropSlice (b, e)) = .ok (Sel.rng (b : Int) 1 n) := by
+  unfold selOf cropSlice
+  simp only
+  rw [crop_slice_of_pad b n e]
+
+theorem keptAxes_all (its : List Item) (h : ∀ it ∈ its, it.isInt = false) :
+    keptAxes its = List.range its.length := by
+  unfold keptAxes
+  rw [List.filter_eq_self]
+  intro a ha
+  have ha' : a < its.length := by simpa using ha
+  have : its.getD a default ∈ its := by
+    rw [List.getD_eq_getElem?_getD, List.getElem?_eq_getElem ha']
+    exact List.getElem_mem _
+  simpa [List.getD_eq_getElem?_getD] using h _ this
+
+theorem listAxes_none (its : List Item) (h : ∀ it ∈ its, it.isList = false) : listAxes its = [] := by
+  unfold listAxes
+  rw [List.filter_eq_nil_iff]
+  intro a ha
+  have ha' : a < its.length := by simpa using ha
+  have : its.getD a default ∈ its := by
+    rw [List.getD_eq_getElem?_getD, List.getElem?_eq_getElem ha']
+    exact List.getElem_mem _
+  simpa [List.getD_eq_getElem?_getD] using h _ this
+
+/-- **what `plan` makes of cropping the pad widths**: on the padded shape, the index expression
+`Dataset.crop` builds from `((before, -after), …)` normalises to exactly the explicit plan of
+`pad_crop` (selections `start = before, step = 1, length = n`, identity axis order). -/
+theorem plan_crop_of_pad (shape : List Nat) (w : List (Nat × Nat)) (hw : w.length = shape.length) :
+    plan (padShape shape w) (cropIxOfPad w)
+      = .ok ⟨w.map cropSlice, (padCropPlan shape w).sels, (padCropPlan shape w).order⟩ := by
+  rw [cropIxOfPad_eq]
+  have hslice : ∀ it ∈ w.map cropSlice, it.isInt = false ∧ it.isList = false ∧ it.isEllipsis = false := by
+    intro it hit
+    simp only [List.mem_map] at hit
+    obtain ⟨p, _, rfl⟩ := hit
+    simp [cropSlice, Item.isInt, Item.isList, Item.isEllipsis]
+  have hpl : (padShape shape w).length = shape.length := by simp [padShape, hw]
+  -- expandItems is the identity here
+  have hexp : expandItems (padShape shape w).length (w.map cropSlice) = .ok (w.map cropSlice) := by
+    unfold expandItems
+    have hf : (w.map cropSlice).filter Item.isEllipsis = [] := by
+      rw [List.filter_eq_nil_iff]; intro a ha; simp [(hslice a ha).2.2]
+    simp [hf, hpl, hw]
+  -- every selector is the slice of `crop_slice_of_pad`
+  have hsel : ∀ x ∈ (padShape shape w).zip (w.map cropSlice),
+      selOf x.1 x.2 = .ok ((fun (x : Nat × Item) => match selOf x.1 x.2 with
+        | .ok s => s | .error _ => default) x) ∧ selOfBasic x.1 x.2 = selOf x.1 x.2 := by
+    intro x hx
+    obtain ⟨i, hi, rfl⟩ := List.mem_iff_getElem.mp hx
+    have hi1 : i < shape.length := by simp [padShape, hw] at hi; omega
+    have hi2 : i < w.length := hw ▸ hi1
+    simp only [List.getElem_zip, List.getElem_map, padShape, List.getElem_zipWith]
+    have := selOf_cropSlice (w[i]).1 shape[i] (w[i]).2
+    have e1 : ((w[i]).1 + shape[i] + (w[i]).2) = (w[i]).1 + shape[i] + (w[i]).2 := rfl
+    constructor
+    · rw [show (w[i]) = ((w[i]).1, (w[i]).2) from rfl] at *
+      simp only [this]
+    · rfl
+  unfold plan
+  rw [hexp]
+  simp only
+  rw [mapMExcept_ok (fun (p : Nat × Item) => selOfBasic p.1 p.2) _ _ (fun x hx => by rw [(hsel x hx).2]; exact (hsel x hx).1)]
+  simp only
+  rw [mapMExcept_ok (fun (p : Nat × Item) => selOf p.1 p.2) _ _ (fun x hx => (hsel x hx).1)]
+  simp only
+  -- the selectors, as a list
+  have hsels : ((padShape shape w).zip (w.map cropSlice)).map (fun (x : Nat × Item) =>
+      match selOf x.1 x.2 with | .ok s => s | .error _ => default) = (padCropPlan shape w).sels := by
+    apply List.ext_getElem
+    · simp [padCropPlan, padShape, hw]
+    · intro i h1 h2
+      have hi1 : i < shape.length := by simp [padCropPlan, hw] at h2; omega
+      have hi2 : i < w.length := hw ▸ hi1
+      simp only [List.getElem_map, List.getElem_zip, padShape, List.getElem_zipWith, padCropPlan]
+      have := selOf_cropSlice (w[i]).1 shape[i] (w[i]).2
+      rw [show ((w[i]).1, (w[i]).2) = w[i] from rfl] at this
+      rw [this]
+  rw [hsels]
+  have hl : lstLens (padCropPlan shape w).sels = [] := by
+    unfold lstLens padCropPlan
+    rw [List.filterMap_eq_nil_iff]
+    intro a ha
+    simp only [List.mem_iff_getElem, List.getElem_zipWith] at ha
+    obtain ⟨i, _, rfl⟩ := ha
+    rfl
+  rw [hl]
+  simp only
+  have hord : npOrder (advSeparated (w.map cropSlice)) (w.map cropSlice) = (padCropPlan shape w).order := by
+    have hla := listAxes_none (w.map cropSlice) (fun it hit => (hslice it hit).2.1)
+    unfold npOrder advSeparated
+    rw [hla]
+    simp only [Bool.false_eq_true, if_false]
+    rw [keptAxes_all _ (fun it hit => (hslice it hit).1)]
+    simp [padCropPlan, hw]
+  rw [hord]
+
 /-! ### N-D: total of the block sums -/
 
 section Total
